@@ -455,3 +455,49 @@ MUTANTS += [
     {"id": "C04-benign-palette-get-or-else", "prop": "C04", "benign": True,
      "edits": [(D, _PAL_OLD + "        }\n", '            let index = number_decode(cmds.next()?)?;\n            COLORS.get(index).copied().or_else(|| {\n                let rest = index - COLORS.len();\n                if rest < 216 {\n                    Some(RGBA::new(CUBE[rest / 36], CUBE[(rest % 36) / 6], CUBE[rest % 6], 255))\n                } else {\n                    GREYS.get(rest - 216).map(|&v| RGBA::new(v, v, v, 255))\n                }\n            })\n        }\n')]},
 ]
+
+# ---- T9-TEXT-SPAN: the free text of a kitty image response / bracketed paste is the whole span between the delimiters ---------------------
+_KI_ITER = "        let mut iter = data[3..data.len() - 2].splitn(2, |b| *b == b';');\n"
+_KI_FOR = "        for (key, value) in key_value_decode(b',', iter.next()?) {\n"
+_KI_MSG = "        let msg = iter.next()?;\n"
+_KI_ERR = '        let error = if msg == b"OK" {\n            None\n        } else {\n            Some(String::from_utf8_lossy(msg).to_string())\n        };\n'
+_KV_OLD = "    data.split(move |b| *b == sep).filter_map(|kv| {\n        let mut iter = kv.splitn(2, |b| *b == b'=');\n        let key = iter.next()?;\n        let value = iter.next()?;\n        Some((key, value))\n    })\n}\n"
+_KV_PAIR = "    data.split(move |b| *b == sep)\n        .filter_map(|kv| split_pair(b'=', kv))\n}\n\n/// Split data into the parts before and after separator\nfn split_pair(sep: u8, data: &[u8]) -> Option<(&[u8], &[u8])> {\n    let mut iter = data.%s;\n    Some((iter.next()?, iter.next()?))\n}\n"
+_KI_PAIR = "        let (control, msg) = split_pair(b';', &data[3..data.len() - 2])?;\n"
+_KI_FOR_CTL = "        for (key, value) in key_value_decode(b',', control) {\n"
+_BP_OLD = "        let text = String::from_utf8(data[6..data.len() - 6].into()).ok()?;\n        Some(TerminalEvent::Paste(text))\n"
+MUTANTS += [
+    # the seed's essence: shared split_pair helper built on an unbounded `split` - the message ends at its first ';'
+    {"id": "C04-kitty-text-split-pair-unbounded", "prop": "C04", "expect": "T9-TEXT-SPAN/decoder::KittyImageMatcher::decode/cut-at-semicolon",
+     "edits": [(D, _KI_ITER, _KI_PAIR), (D, _KI_FOR, _KI_FOR_CTL), (D, _KI_MSG, ""), (D, _KV_OLD, _KV_PAIR % "split(move |b| *b == sep)")]},
+    # near misses
+    {"id": "C04-kitty-text-split-in-place", "prop": "C04", "expect": "T9-TEXT-SPAN/decoder::KittyImageMatcher::decode/cut-at-semicolon",
+     "edits": [(D, _KI_ITER, "        let mut iter = data[3..data.len() - 2].split(|b| *b == b';');\n")]},
+    {"id": "C04-kitty-text-splitn-3", "prop": "C04", "expect": "T9-TEXT-SPAN/decoder::KittyImageMatcher::decode/cut-at-semicolon",
+     "edits": [(D, _KI_ITER, "        let mut iter = data[3..data.len() - 2].splitn(3, |b| *b == b';');\n")]},
+    {"id": "C04-kitty-text-after-last-separator", "prop": "C04", "expect": "T9-TEXT-SPAN/decoder::KittyImageMatcher::decode/",
+     "edits": [(D, _KI_MSG, ""), (D, _KI_ITER, "        let mut iter = data[3..data.len() - 2].rsplitn(2, |b| *b == b';');\n        let msg = iter.next()?;\n")]},
+    {"id": "C04-kitty-text-trimmed", "prop": "C04", "expect": "T9-TEXT-SPAN/decoder::KittyImageMatcher::decode/text-differs",
+     "edits": [(D, "Some(String::from_utf8_lossy(msg).to_string())", "Some(String::from_utf8_lossy(msg).trim().to_string())")]},
+    {"id": "C04-kitty-ok-prefix-is-success", "prop": "C04", "expect": "T9-TEXT-SPAN/decoder::KittyImageMatcher::decode/reported-without-text",
+     "edits": [(D, 'let error = if msg == b"OK" {', 'let error = if msg.starts_with(b"OK") {')]},
+    {"id": "C04-paste-text-one-byte-short", "prop": "C04", "expect": "T9-TEXT-SPAN/decoder::BracketedPasteMatcher::decode/",
+     "edits": [(D, "String::from_utf8(data[6..data.len() - 6].into())", "String::from_utf8(data[7..data.len() - 6].into())")]},
+    {"id": "C04-paste-text-cut-at-semicolon", "prop": "C04", "expect": "T9-TEXT-SPAN/decoder::BracketedPasteMatcher::decode/cut-at-semicolon",
+     "edits": [(D, _BP_OLD, "        let body = data[6..data.len() - 6].split(|b| *b == b';').next()?;\n        let text = String::from_utf8(body.into()).ok()?;\n        Some(TerminalEvent::Paste(text))\n")]},
+    # behaviour-preserving rewrites
+    {"id": "C04-benign-kitty-split-pair-bounded", "prop": "C04", "benign": True,          # the correct version of the refactoring the seed poses as
+     "edits": [(D, _KI_ITER, _KI_PAIR), (D, _KI_FOR, _KI_FOR_CTL), (D, _KI_MSG, ""), (D, _KV_OLD, _KV_PAIR % "splitn(2, move |b| *b == sep)")]},
+    {"id": "C04-benign-kitty-position-slices", "prop": "C04", "benign": True,
+     "edits": [(D, _KI_ITER, "        let payload = &data[3..data.len() - 2];\n        let at = payload.iter().position(|b| *b == b';')?;\n        let (control, msg) = (&payload[..at], &payload[at + 1..]);\n"),
+               (D, _KI_FOR, _KI_FOR_CTL), (D, _KI_MSG, "")]},
+    {"id": "C04-benign-kitty-split-at", "prop": "C04", "benign": True,
+     "edits": [(D, _KI_ITER, "        const SEP: u8 = b';';\n        let payload = &data[3..data.len() - 2];\n        let (control, rest) = payload.split_at(payload.iter().position(|&b| SEP == b)?);\n        debug_assert!(rest.first() == Some(&SEP));\n        let msg = &rest[1..];\n"),
+               (D, _KI_FOR, _KI_FOR_CTL), (D, _KI_MSG, "")]},
+    {"id": "C04-benign-kitty-error-match-into-owned", "prop": "C04", "benign": True,
+     "edits": [(D, _KI_ERR, '        let error = match msg {\n            b"OK" => None,\n            text => Some(String::from_utf8_lossy(text).into_owned()),\n        };\n')]},
+    {"id": "C04-benign-kitty-error-negated-hoisted", "prop": "C04", "benign": True,
+     "edits": [(D, _KI_ERR, '        let failed = b"OK" != msg;\n        let error = failed.then(|| String::from_utf8_lossy(msg).to_string());\n')]},
+    {"id": "C04-benign-paste-named-delimiters", "prop": "C04", "benign": True,
+     "edits": [(D, _BP_OLD, '        let inner = &data[b"\\x1b[200~".len()..data.len() - b"\\x1b[201~".len()];\n        String::from_utf8(inner.to_vec()).ok().map(TerminalEvent::Paste)\n')]},
+]
